@@ -2,9 +2,11 @@
 pub mod c18gen;
 pub mod chaos;
 pub mod civil;
+pub mod dirspec;
 pub mod exec;
 pub mod json;
 pub mod known;
+pub mod proto;
 pub mod rec;
 pub mod rng;
 pub mod run;
